@@ -39,6 +39,33 @@ class BlackJAXSMC(SMCSampler):
         self.key = None
         self.rng = rng or np.random.default_rng()
 
+    def _checkpoint_extra_state(self) -> dict:
+        state = super()._checkpoint_extra_state()
+        # The JAX key evolves with every mutation step: it is part of the
+        # loop state, like the NumPy generator used for resampling
+        if self.key is not None:
+            import jax
+
+            typed = jax.dtypes.issubdtype(self.key.dtype, jax.dtypes.prng_key)
+            state["jax_key"] = {
+                "data": np.asarray(
+                    jax.random.key_data(self.key) if typed else self.key
+                ),
+                "typed": bool(typed),
+            }
+        return state
+
+    def _restore_extra_state(self, state: dict) -> None:
+        super()._restore_extra_state(state)
+        jax_key = state.get("jax_key")
+        if jax_key is not None:
+            import jax
+
+            data = jax.numpy.asarray(jax_key["data"])
+            self.key = (
+                jax.random.wrap_key_data(data) if jax_key["typed"] else data
+            )
+
     def log_prob(self, x, beta=None):
         """Log probability function compatible with BlackJAX."""
         # Convert to original xp format for computation
